@@ -192,233 +192,106 @@ theorem safe_route {s : Server} (hs : Safe s) (tok : Nat) : Safe (route s tok).1
             · exact safe_set hs hx _ s.clients s.owner id rfl
             · exact hs
 
-/-- a reply is `lost` only at an open text connection -/
-theorem recvN_lost (s : Server) (fuel d tok e : Nat) (h : recvN s fuel d tok = .lost e) :
-    ∃ y, s.conns[e]? = some y ∧ y.closed = false := by
-  induction fuel generalizing d with
-  | zero => simp [recvN] at h
-  | succ n ih =>
-    unfold recvN at h
-    cases hd : s.conns[d]? with
-    | none => simp [hd] at h
-    | some y =>
-      simp only [hd] at h
-      cases hk : y.kind <;> simp only [hk] at h
-      · split at h
-        · cases h
-        · split at h
-          · cases h
-          · split at h
-            · cases h
-            · exact ih _ h
-      · split at h
-        · cases h
-        · split at h
-          · cases h
-          · rename_i hc
-            split at h
-            · cases h; exact ⟨y, hd, by cases hh : y.closed <;> simp_all⟩
-            · cases h
-
-/-- the connection a reply is lost at is open in the state `route` returns -/
-theorem route_lost {s : Server} (hg : Good s) (tok e : Nat) (h : (route s tok).2 = .lost e) :
-    ∃ y, (route s tok).1.conns[e]? = some y ∧ y.closed = false := by
-  unfold route at h ⊢
-  cases ho : aget s.owner tok with
-  | none => simp [ho] at h
-  | some o =>
-    simp only [ho] at h ⊢
-    cases hx : s.conns[o]? with
-    | none => simp [hx] at h
-    | some x =>
-      simp only [hx] at h ⊢
-      cases ht : x.target with
-      | self => simp only [ht] at h ⊢; exact recvN_lost s _ _ _ _ h
-      | conn d => simp only [ht] at h ⊢; exact recvN_lost s _ _ _ _ h
-      | default =>
-        simp only [ht] at h ⊢
-        split
-        · rename_i hz; simp [hz] at h
-        · rename_i hz
-          simp only [hz, if_false] at h
-          cases hl : aget s.clients x.cid with
-          | none => simp [hl] at h
-          | some d =>
-            simp only [hl] at h ⊢
-            split
-            · rename_i hop
-              simp only [hop, if_true] at h
-              obtain ⟨y, hy, hyo⟩ := recvN_lost s _ _ _ _ h
-              have hxc : x.closed = true := closed_of_target hg hx (by rw [ht]; simp)
-              have : e ≠ o := by intro e'; subst e'; rw [hx] at hy; cases hy; rw [hxc] at hyo; cases hyo
-              exact ⟨y, by dsimp only; rw [get_set_ne this]; exact hy, hyo⟩
-            · rename_i hop
-              simp only [hop] at h
-              exact recvN_lost s _ _ _ _ h
-
-theorem good_settle {s : Server} (hg : Good s) (hs : Safe s) (dst : Dest)
-    (hl : ∀ e, dst = .lost e → ∃ y, s.conns[e]? = some y ∧ y.closed = false)
-    (hn : (settle s dst).1.dead = none) : Good (settle s dst).1 := by
-  cases dst with
-  | to d =>
-    simp only [settle] at hn ⊢
-    cases hd : s.conns[d]? with
-    | none => exact hg
-    | some y =>
-      simp only []
-      split
-      · refine good_update_minor hg hd _ s.owner rfl rfl rfl rfl rfl rfl (fun _ => ⟨rfl, rfl⟩) ?_
-        intro ho; exact hg.willsOpen d y hd ho
-      · exact hg
-  | lost d =>
-    obtain ⟨y, hy, hyo⟩ := hl d rfl
-    simp only [settle, hy] at hn ⊢
-    have hg' : Good { s with conns := s.conns.set d { y with awaiting := 0 } } :=
-      good_update_minor hg hy _ s.owner rfl rfl rfl rfl rfl rfl (fun _ => ⟨rfl, rfl⟩) (fun ho => hg.willsOpen d y hy ho)
-    have hs' : Safe { s with conns := s.conns.set d { y with awaiting := 0 } } :=
-      safe_set hs hy _ s.clients s.owner id rfl
-    have hx' : ({ s with conns := s.conns.set d { y with awaiting := 0 } } : Server).conns[d]? = some { y with awaiting := 0 } :=
-      get_set_self hy _
-    refine good_doClose hg' hs' hx' hyo ?_
-    cases hf : (doClose { s with conns := s.conns.set d { y with awaiting := 0 } } d { y with awaiting := 0 }).2.2 with
+/-! ### close -/
+theorem doClose_dead_none {s : Server} (hg : Good s) {c : Nat} {x : Conn} (hx : s.conns[c]? = some x) :
+    (doClose s c x).1.dead = none := by
+  have ha := doClose_alive hg hx
+  have hdn : (drainK (closeState s c x) c x).2 = none := by
+    cases h2 : (drainK (closeState s c x) c x).2 with
     | none => rfl
-    | some f =>
-      exfalso
-      have hdd : (drainK (closeState { s with conns := s.conns.set d { y with awaiting := 0 } } d { y with awaiting := 0 }) d { y with awaiting := 0 }).2 = some f := by
-        cases h2 : (drainK (closeState { s with conns := s.conns.set d { y with awaiting := 0 } } d { y with awaiting := 0 }) d { y with awaiting := 0 }).2 with
-        | none => rw [doClose_none _ _ _ h2] at hf; cases hf
-        | some f' => cases f; cases f'; rfl
-      rw [doClose_some _ _ _ f hdd] at hn
-      cases hn
-  | dropped => exact hg
-  | filtered => exact hg
-  | loop => exact hg
+    | some f => rw [doClose_some _ _ _ f h2] at ha; cases ha
+  rw [doClose_none _ _ _ hdn]
 
-theorem safe_settle {s : Server} (hs : Safe s) (dst : Dest) : Safe (settle s dst).1 := by
-  cases dst with
-  | to d =>
-    simp only [settle]
-    cases hd : s.conns[d]? with
-    | none => exact hs
-    | some y =>
-      simp only []
-      split
-      · exact safe_set hs hd _ s.clients s.owner id rfl
-      · exact hs
-  | lost d =>
-    simp only [settle]
-    cases hd : s.conns[d]? with
-    | none => exact hs
-    | some y =>
-      simp only []
-      exact safe_doClose (safe_set hs hd { y with awaiting := 0 } s.clients s.owner id rfl) (get_set_self hd { y with awaiting := 0 })
-  | dropped => exact hs
-  | filtered => exact hs
-  | loop => exact hs
+/-- alive, and both invariants -/
+def GSA (s : Server) : Prop := Good s ∧ Safe s ∧ s.dead = none
 
-theorem good_stepClose {s : Server} (hg : Good s) (hs : Safe s) (c : Nat) (hn : (stepClose s c).1.dead = none) :
-    Good (stepClose s c).1 := by
-  unfold stepClose at hn ⊢
+theorem gsa_closeOne {s : Server} (h : GSA s) (c : Nat) : GSA (closeOne s c).1 := by
+  obtain ⟨hg, hs, hd⟩ := h
+  unfold closeOne
   cases hx : s.conns[c]? with
-  | none => exact hg
+  | none => exact ⟨hg, hs, hd⟩
   | some x =>
-    simp only [hx] at hn ⊢
+    simp only []
     split
-    · exact hg
+    · exact ⟨hg, hs, hd⟩
     · rename_i hcl
       have ho : x.closed = false := by cases h : x.closed <;> simp_all
       split
-      · exact good_update_minor hg hx _ s.owner rfl rfl rfl rfl rfl rfl (fun h => by rw [ho] at h; cases h) (fun _ => hg.willsOpen c x hx ho)
-      · rename_i haw
-        simp only [hcl, haw, if_false] at hn
-        refine good_doClose hg hs hx ho ?_
-        cases hf : (doClose s c x).2.2 with
-        | none => rfl
-        | some f =>
-          exfalso
-          have hdd : (drainK (closeState s c x) c x).2 = some f := by
-            cases h2 : (drainK (closeState s c x) c x).2 with
-            | none => rw [doClose_none _ _ _ h2] at hf; cases hf
-            | some f' => cases f; cases f'; rfl
-          rw [doClose_some _ _ _ f hdd] at hn
-          cases hn
+      · exact ⟨good_update_minor hg hx _ s.owner rfl rfl rfl rfl rfl rfl (fun h => by rw [ho] at h; cases h) (fun _ => hg.willsOpen c x hx ho),
+          safe_set hs hx _ s.clients s.owner id rfl, hd⟩
+      · exact ⟨good_doClose hg hs hx ho (doClose_alive hg hx), safe_doClose hs hx, doClose_dead_none hg hx⟩
 
-theorem safe_stepClose {s : Server} (hs : Safe s) (c : Nat) : Safe (stepClose s c).1 := by
+theorem gsa_half {s : Server} (h : GSA s) {j : Nat} {x : Conn} (hx : s.conns[j]? = some x) :
+    GSA { s with conns := s.conns.set j { x with halfClosed := true } } := by
+  obtain ⟨hg, hs, hd⟩ := h
+  exact ⟨good_update_minor hg hx _ s.owner rfl rfl rfl rfl rfl rfl (fun _ => ⟨rfl, rfl⟩) (fun ho => hg.willsOpen j x hx ho),
+    safe_set hs hx _ s.clients s.owner id rfl, hd⟩
+
+/-- every state `stepClose` can return is reached from `s` by `closeOne` steps and one `halfClosed` mark -/
+theorem stepClose_ind (P : Server → Prop) (s : Server) (c : Nat) (h0 : P s)
+    (h1 : ∀ t j, P t → P (closeOne t j).1)
+    (h2 : ∀ (t : Server) (j : Nat) (x : Conn), P t → t.conns[j]? = some x →
+      P { t with conns := t.conns.set j { x with halfClosed := true } }) :
+    P (stepClose s c).1 := by
   unfold stepClose
-  cases hx : s.conns[c]? with
-  | none => exact hs
-  | some x =>
+  cases nestedOf s (streamOf s c) with
+  | none => exact h1 s _ h0
+  | some n =>
     simp only []
-    split
-    · exact hs
-    · split
-      · exact safe_set hs hx _ s.clients s.owner id rfl
-      · exact safe_doClose hs hx
+    have p1 := h1 s n h0
+    cases hr : (closeOne s n).2 with
+    | closed res f =>
+      cases f with
+      | none =>
+        simp only []
+        have p2 := h1 _ (streamOf s c) p1
+        cases hr2 : (closeOne (closeOne s n).1 (streamOf s c)).2 <;> simp only [] <;> exact p2
+      | some ff => simp only []; exact p1
+    | deferred =>
+      simp only []
+      cases hx : (closeOne s n).1.conns[streamOf s c]? with
+      | none => exact p1
+      | some x => exact h2 _ _ x p1 hx
+    | opened _ => exact p1
+    | ignored => exact p1
+    | inited _ => exact p1
+    | ok => exact p1
+    | routed _ => exact p1
+    | routedClosed _ _ _ => exact p1
+    | noop => exact p1
 
-theorem safe_step {s : Server} (hs : Safe s) (e : Event) : Safe (step s e).1 := by
-  unfold step
-  cases hd : s.dead with
-  | some f => exact hs
-  | none =>
-    simp only []
-    cases e with
-    | «open» k => have h := safe_open hs k; simp only [hd] at h; exact h
-    | init c cid => dsimp only; exact safe_stepInit hs c cid
-    | will c tok imm sf => dsimp only; exact safe_stepWill hs c tok imm sf
-    | request c tok => dsimp only; exact safe_stepRequest hs c tok
-    | deliver tok => dsimp only; exact safe_settle (safe_route hs tok) _
-    | close c k => dsimp only; exact safe_stepClose hs c
+theorem gsa_stepClose {s : Server} (h : GSA s) (c : Nat) : GSA (stepClose s c).1 :=
+  stepClose_ind GSA s c h (fun _ j ht => gsa_closeOne ht j) (fun _ _ _ ht hx => gsa_half ht hx)
 
-theorem good_step {s : Server} (hg : s.dead = none → Good s) (hs : Safe s) (e : Event) (hn : (step s e).1.dead = none) :
-    Good (step s e).1 := by
-  unfold step at hn ⊢
-  cases hd : s.dead with
-  | some f => simp only [hd] at hn; cases hn
-  | none =>
-    have g := hg hd
-    simp only [hd] at hn ⊢
-    cases e with
-    | «open» k => have h := good_open g hs k; simp only [hd] at h; exact h
-    | init c cid => dsimp only; exact good_stepInit g c cid
-    | will c tok imm sf => dsimp only; exact good_stepWill g c tok imm sf
-    | request c tok => dsimp only; exact good_stepRequest g c tok
-    | deliver tok =>
-      dsimp only at hn ⊢
-      exact good_settle (good_route g tok) (safe_route hs tok) _ (fun e' he' => route_lost g tok e' he') hn
-    | close c k => dsimp only at hn ⊢; exact good_stepClose g hs c hn
+theorem settle_state (s : Server) (d : Nat) (y : Conn) (hy : s.conns[d]? = some y) :
+    (settle s (.lost d)).1 = (stepClose { s with conns := s.conns.set d { y with awaiting := 0 } } d).1 := by
+  simp only [settle, hy]
+  split <;> rfl
 
-theorem safe_init : Safe ({} : Server) := by
-  constructor
-  · intro e he; cases he
-  · intro c x h; simp at h
-
-theorem good_init : Good ({} : Server) := by
-  constructor
-  · intro c x h; simp at h
-  · intro c x h; simp at h
-  · intro c x d h; simp at h
-  · intro k d h; simp [aget] at h
-  · intro c x h; simp at h
-  · intro c x h; simp at h
-  · intro c x h; simp at h
-
-theorem safe_fold (evs : List Event) : ∀ s : Server, Safe s → Safe (evs.foldl (fun s e => (step s e).1) s) := by
-  induction evs with
-  | nil => intro s hs; exact hs
-  | cons e es ih => intro s hs; exact ih _ (safe_step hs e)
-
-theorem safe_run (evs : List Event) : Safe (run evs) := safe_fold evs _ safe_init
-
-theorem good_fold (evs : List Event) : ∀ s : Server, (s.dead = none → Good s) → Safe s →
-    (evs.foldl (fun s e => (step s e).1) s).dead = none → Good (evs.foldl (fun s e => (step s e).1) s) := by
-  induction evs with
-  | nil => intro s hg _ hn; exact hg hn
-  | cons e es ih =>
-    intro s hg hs hn
-    exact ih _ (fun h => good_step hg hs e h) (safe_step hs e) hn
-
-theorem good_run (evs : List Event) (hn : (run evs).dead = none) : Good (run evs) :=
-  good_fold evs _ (fun _ => good_init) safe_init hn
+theorem gsa_settle {s : Server} (h : GSA s) (dst : Dest) : GSA (settle s dst).1 := by
+  obtain ⟨hg, hs, hd⟩ := h
+  cases dst with
+  | to d =>
+    simp only [settle]
+    cases hy : s.conns[d]? with
+    | none => exact ⟨hg, hs, hd⟩
+    | some y =>
+      simp only []
+      split
+      · exact ⟨good_update_minor hg hy _ s.owner rfl rfl rfl rfl rfl rfl (fun _ => ⟨rfl, rfl⟩) (fun ho => hg.willsOpen d y hy ho),
+          safe_set hs hy _ s.clients s.owner id rfl, hd⟩
+      · exact ⟨hg, hs, hd⟩
+  | lost d =>
+    cases hy : s.conns[d]? with
+    | none => simp only [settle, hy]; exact ⟨hg, hs, hd⟩
+    | some y =>
+      rw [settle_state s d y hy]
+      apply gsa_stepClose
+      exact ⟨good_update_minor hg hy _ s.owner rfl rfl rfl rfl rfl rfl (fun _ => ⟨rfl, rfl⟩) (fun ho => hg.willsOpen d y hy ho),
+        safe_set hs hy { y with awaiting := 0 } s.clients s.owner id rfl, hd⟩
+  | dropped => exact ⟨hg, hs, hd⟩
+  | filtered => exact ⟨hg, hs, hd⟩
+  | loop => exact ⟨hg, hs, hd⟩
 
 theorem route_dead (s : Server) (tok : Nat) : (route s tok).1.dead = s.dead := by
   unfold route
@@ -441,52 +314,50 @@ theorem route_dead (s : Server) (tok : Nat) : (route s tok).1.dead = s.dead := b
           | none => rfl
           | some d => simp only []; split <;> rfl
 
-theorem doClose_dead_none {s : Server} (hg : Good s) {c : Nat} {x : Conn} (hx : s.conns[c]? = some x) :
-    (doClose s c x).1.dead = none := by
-  have ha := doClose_alive hg hx
-  have hdn : (drainK (closeState s c x) c x).2 = none := by
-    cases h2 : (drainK (closeState s c x) c x).2 with
-    | none => rfl
-    | some f => rw [doClose_some _ _ _ f h2] at ha; cases ha
-  rw [doClose_none _ _ _ hdn]
+/-! ### admin -/
+theorem gsa_stepAdmin {s : Server} (h : GSA s) (c : Nat) : GSA (stepAdmin s c).1 := by
+  obtain ⟨hg, hs, hd⟩ := h
+  unfold stepAdmin
+  cases hx : s.conns[c]? with
+  | none => exact ⟨hg, hs, hd⟩
+  | some x =>
+    simp only []
+    split
+    · exact ⟨hg, hs, hd⟩
+    · rename_i hcond
+      have ho : x.closed = false := by cases h : x.closed <;> simp_all
+      have g1 : Good { s with conns := s.conns.set c { x with nested := some s.conns.length } } :=
+        good_update_minor hg hx _ s.owner rfl rfl rfl rfl rfl rfl (fun h => by rw [ho] at h; cases h) (fun _ => hg.willsOpen c x hx ho)
+      have s1 : Safe { s with conns := s.conns.set c { x with nested := some s.conns.length } } :=
+        safe_set hs hx _ s.clients s.owner id rfl
+      exact ⟨good_open g1 s1 .text (some c), safe_open s1 .text (some c), hd⟩
 
-theorem settle_alive {s : Server} (hg : Good s) (hd : s.dead = none) (dst : Dest) : (settle s dst).1.dead = none := by
-  cases dst with
-  | to d =>
-    simp only [settle]
-    cases s.conns[d]? with
-    | none => exact hd
-    | some y => simp only []; split <;> exact hd
-  | lost d =>
-    simp only [settle]
-    cases hy : s.conns[d]? with
-    | none => exact hd
-    | some y =>
-      simp only []
-      have hg' : Good { s with conns := s.conns.set d { y with awaiting := 0 } } :=
-        good_update_minor hg hy _ s.owner rfl rfl rfl rfl rfl rfl (fun _ => ⟨rfl, rfl⟩) (fun ho => hg.willsOpen d y hy ho)
-      exact doClose_dead_none hg' (get_set_self hy { y with awaiting := 0 })
-  | dropped => exact hd
-  | filtered => exact hd
-  | loop => exact hd
-
-/-- the server never dies: `Close` is never fatal in a reachable state -/
-theorem step_alive {s : Server} (hg : Good s) (hd : s.dead = none) (e : Event) : (step s e).1.dead = none := by
+/-! ### every event -/
+theorem gsa_step {s : Server} (h : GSA s) (e : Event) : GSA (step s e).1 := by
+  have hd := h.2.2
   unfold step
   simp only [hd]
+  obtain ⟨hg, hs, _⟩ := h
   cases e with
-  | «open» k => dsimp only
+  | «open» k =>
+    have h1 := good_open hg hs k none
+    have h2 := safe_open hs k none
+    simp only [hd] at h1 h2
+    exact ⟨h1, h2, rfl⟩
   | init c cid =>
+    refine ⟨good_stepInit hg c cid, safe_stepInit hs c cid, ?_⟩
     dsimp only; unfold stepInit
     cases s.conns[c]? with
     | none => exact hd
     | some x => simp only []; split <;> exact hd
   | will c tok imm sf =>
+    refine ⟨good_stepWill hg c tok imm sf, safe_stepWill hs c tok imm sf, ?_⟩
     dsimp only; unfold stepWill
     cases s.conns[c]? with
     | none => exact hd
     | some x => simp only []; split <;> exact hd
   | request c tok =>
+    refine ⟨good_stepRequest hg c tok, safe_stepRequest hs c tok, ?_⟩
     dsimp only; unfold stepRequest
     cases s.conns[c]? with
     | none => exact hd
@@ -496,33 +367,36 @@ theorem step_alive {s : Server} (hg : Good s) (hd : s.dead = none) (e : Event) :
       · exact hd
       · cases x.kind <;> exact hd
   | deliver tok =>
-    dsimp only
-    show (settle (route s tok).1 (route s tok).2).1.dead = none
-    exact settle_alive (good_route hg tok) (by rw [route_dead]; exact hd) _
-  | close c k =>
-    dsimp only; unfold stepClose
-    cases hx : s.conns[c]? with
-    | none => exact hd
-    | some x =>
-      simp only []
-      split
-      · exact hd
-      · split
-        · exact hd
-        · exact doClose_dead_none hg hx
+    exact gsa_settle ⟨good_route hg tok, safe_route hs tok, by rw [route_dead]; exact hd⟩ _
+  | close c k => exact gsa_stepClose ⟨hg, hs, hd⟩ c
+  | admin c => exact gsa_stepAdmin ⟨hg, hs, hd⟩ c
 
-theorem alive_fold (evs : List Event) : ∀ s : Server, Good s → Safe s → s.dead = none →
-    (evs.foldl (fun s e => (step s e).1) s).dead = none := by
+theorem safe_init : Safe ({} : Server) := by
+  constructor
+  · intro e he; cases he
+  · intro c x h; simp at h
+
+theorem good_init : Good ({} : Server) := by
+  constructor
+  · intro c x h; simp at h
+  · intro c x h; simp at h
+  · intro c x d h; simp at h
+  · intro k d h; simp [aget] at h
+  · intro c x h; simp at h
+  · intro c x h; simp at h
+  · intro c x h; simp at h
+
+theorem gsa_fold (evs : List Event) : ∀ s : Server, GSA s → GSA (evs.foldl (fun s e => (step s e).1) s) := by
   induction evs with
-  | nil => intro s _ _ hd; exact hd
-  | cons e es ih =>
-    intro s hg hs hd
-    have h1 := step_alive hg hd e
-    exact ih _ (good_step (fun _ => hg) hs e h1) (safe_step hs e) h1
+  | nil => intro s h; exact h
+  | cons e es ih => intro s h; exact ih _ (gsa_step h e)
 
-theorem run_alive (evs : List Event) : (run evs).dead = none := alive_fold evs _ good_init safe_init rfl
+theorem gsa_run (evs : List Event) : GSA (run evs) := gsa_fold evs _ ⟨good_init, safe_init, rfl⟩
 
-theorem good_run' (evs : List Event) : Good (run evs) := good_run evs (run_alive evs)
+theorem safe_run (evs : List Event) : Safe (run evs) := (gsa_run evs).2.1
+/-- the server never dies: `Close` is never fatal in a reachable state -/
+theorem run_alive (evs : List Event) : (run evs).dead = none := (gsa_run evs).2.2
+theorem good_run' (evs : List Event) : Good (run evs) := (gsa_run evs).1
 
 /-- once dead the state is frozen -/
 theorem step_dead {s : Server} (e : Event) (f : Fatal) (h : s.dead = some f) : (step s e).1 = s := by
